@@ -33,6 +33,10 @@ json Chunk::to_json() const
 		ts.push_back(e);
 	}
 	j["toks"] = ts;
+	if (!inc.empty())
+		j["inc"] = inc;
+	if (faulty)
+		j["faulty"] = 1;
 	return j;
 }
 
@@ -396,8 +400,9 @@ struct Builder {
 	}
 	void sep()
 	{
+		// only white space between the tokens of one item: this parser accepts comments between items only
+		// (a comment token inside an assignment, list, call or section header is an "unexpected token")
 		ws();
-		maybe_comment();
 	}
 };
 
@@ -446,6 +451,27 @@ static void emit_value(Builder &b, const json &o, bool last = false)
 }
 
 static void emit_items(Builder &b, const json &opts, int budget, bool kv_section);
+
+static bool emittable(const Builder &b, const json &o)
+{
+	if (o["t"] != "func")
+		return true;
+	if (b.g.skip_funcs)
+		return false;
+	if (o.value("fn", std::string()) == "include" && (b.g.skip_include || b.g.include_targets.empty()))
+		return false;
+	return true;
+}
+
+static const json *pick_opt(Builder &b, const json &opts)
+{
+	for (int tries = 0; tries < 8; tries++) {
+		const json &o = opts[b.r.below(opts.size())];
+		if (emittable(b, o))
+			return &o;
+	}
+	return nullptr;
+}
 
 static void emit_item(Builder &b, const json &o)
 {
@@ -547,8 +573,10 @@ static void emit_items(Builder &b, const json &opts, int budget, bool kv_section
 		} else {
 			if (opts.empty())
 				break;
-			const json &o = opts[r.below(opts.size())];
-			emit_item(b, o);
+			const json *o = pick_opt(b, opts);
+			if (!o)
+				break;
+			emit_item(b, *o);
 		}
 		b.ws();
 		b.maybe_comment();
@@ -565,8 +593,10 @@ std::vector<Chunk> gen_text(Rng &r, const json &opts, const TextGen &g)
 	for (int i = 0; i < n; i++) {
 		Builder b{r, g, Chunk(), 0};
 		b.maybe_comment();
-		const json &o = opts[r.below(opts.size())];
-		emit_item(b, o);
+		const json *o = pick_opt(b, opts);
+		if (!o)
+			continue;
+		emit_item(b, *o);
 		// every chunk ends with a newline so that chunks can be dropped or moved to other files
 		b.raw(r.chance(1, 5) ? " \n\n" : "\n");
 		b.maybe_comment();
